@@ -165,30 +165,50 @@ def run(chk, repo, tier):
                 continue
             tag = f'{label}, {conds_str(p)[-60:]}'
             mc = [e for e in p.events if e.kind == 'call' and e.data.get('callee') == 'ext:scipy.ndimage.map_coordinates']
-            mg = [e for e in p.events if e.kind == 'call' and e.data.get('callee') == 'ext:numpy.meshgrid']
-            if not mc or len(mg) != 1:
-                raise AnalysisError('util.rescale: map_coordinates / meshgrid calls not found')
-            x, y = mg[0].data['args'][0], mg[0].data['args'][1]
-            xy = (mg[0].data.get('kwargs') or {}).get('indexing', Const('xy')) == Const('xy')
-
-            def grid(n_out, n_in):
-                return (nf.app('arange', n_out, dtype=Const('float64')) - n_out / 2) / scale + n_in / 2
-            okx = x == grid(want[1].pow(1) if False else _astype_int(want[1]), i1)
-            oky = y == grid(_astype_int(want[0]), i0)
-            chk.ob('C17-f', 'N-shape', fu.key, f'column coordinates span ceil(n_cols*scale) samples of the column axis [{tag}]',
-                   okx, f'x = {fmt(x)[:200]}', fu.loc(mg[0].node))
-            chk.ob('C17-f', 'N-shape', fu.key, f'row coordinates span ceil(n_rows*scale) samples of the row axis [{tag}]',
-                   oky, f'y = {fmt(y)[:200]}', fu.loc(mg[0].node))
-            okc = xy
+            if not mc:
+                raise AnalysisError('util.rescale: map_coordinates calls not found')
+            # element [i, j] of the coordinate arrays every map_coordinates call receives, however the grid is built:
+            #   rows[i, j] = (i - n_rows_out/2)/scale + n_rows_in/2      cols[i, j] = (j - n_cols_out/2)/scale + n_cols_in/2
+            from ..elem import ElemEval, Unsupported
+            from ..shapes import Shapes
+            i_, j_ = S('@i'), S('@j')
+            want_r = (i_ - want[0] / 2) / scale + i0 / 2
+            want_c = (j_ - want[1] / 2) / scale + i1 / 2
+            okr = okcol = okc = True
+            det_r = det_c = ''
             for e in mc:
-                coords = e.data['args'][1] if len(e.data['args']) > 1 else None
-                good = isinstance(coords, Tup) and len(coords) == 2
-                if good:
-                    a0, a1 = coords.items[0].single_atom(), coords.items[1].single_atom()
-                    # meshgrid(x, y) 'xy' -> component 0 varies with x (columns), component 1 with y (rows)
-                    good = a0 is not None and a1 is not None and is_app(a0, 'meshgrid') and is_app(a1, 'meshgrid') and \
-                        a0[2][-1] == C(1) and a1[2][-1] == C(0)
-                okc = okc and good
+                coords = e.data['args'][1] if len(e.data['args']) > 1 else (e.data.get('kwargs') or {}).get('coordinates')
+                comp = None
+                if isinstance(coords, Tup) and len(coords) == 2:
+                    comp = list(coords.items)
+                elif isinstance(coords, Poly):
+                    comp = [nf.index(coords, C(0)), nf.index(coords, C(1))]
+                if comp is None:
+                    okr = okcol = okc = None
+                    det_r = det_c = f'coordinates {fmt(coords)[:100]} not understood'
+                    continue
+                try:
+                    ee = ElemEval(Shapes({}, assume_scalar=True))
+                    g0, g1 = ee.at(comp[0], (i_, j_)), ee.at(comp[1], (i_, j_))
+                except Unsupported as ex:
+                    okr = okcol = okc = None
+                    det_r = det_c = f'undecided: {ex}'
+                    continue
+                good_r, good_c = g0 == want_r, g1 == want_c
+                swapped = g0 == nf.subst_value(want_c, {}) and False
+                if okr is not None:
+                    okr = okr and good_r
+                    okcol = okcol and good_c
+                    # rows first: component 0 must vary with the row index, component 1 with the column index
+                    varies0 = ('sym', '@i') in nf.value_atoms(g0) and ('sym', '@j') not in nf.value_atoms(g0)
+                    varies1 = ('sym', '@j') in nf.value_atoms(g1) and ('sym', '@i') not in nf.value_atoms(g1)
+                    okc = okc and varies0 and varies1
+                det_r = det_r or f'rows[i,j] = {fmt(g0)[:160]}'
+                det_c = det_c or f'cols[i,j] = {fmt(g1)[:160]}'
+            chk.ob('C17-f', 'N-shape', fu.key, f'column coordinates span ceil(n_cols*scale) samples of the column axis [{tag}]',
+                   okcol, det_c, fu.loc(mc[0].node))
+            chk.ob('C17-f', 'N-shape', fu.key, f'row coordinates span ceil(n_rows*scale) samples of the row axis [{tag}]',
+                   okr, det_r, fu.loc(mc[0].node))
             chk.ob('C17-f', 'U-axis', fu.key, f'all {len(mc)} map_coordinates calls get [row coordinates, column coordinates] [{tag}]',
                    okc, '', fu.loc(mc[0].node))
 
